@@ -9,11 +9,16 @@
    its expiry, whatever the entry holds by then - configuration LockSpec_old.cfg is expected to violate
    MutualExclusion, and TLC's counterexample is the schedule the C08 driver forces with the gate.
 
+   A Lock sent by a cluster client is served by a member that keeps trying until the deadline.  With GiveUp = TRUE
+   (the cluster client as found, D34: its read timeout is shorter than the deadline it asked for, so it stops
+   listening and sends the request again) an attempt may acquire the lock although nobody will ever read its
+   reply: the token is known to no client.  LockSpec_retry.cfg is expected to violate LockHasOwner.
+
    Time is a counter advanced by Tick; a client validly holds the lock from the acknowledgement of its Lock until
    its Unlock is acknowledged or the timeout it asked for (or leased) has elapsed. *)
 EXTENDS Naturals, FiniteSets, TLC
 
-CONSTANTS Clients, MaxTime, Timeouts, AtomicEffect, MaxLocks
+CONSTANTS Clients, MaxTime, Timeouts, AtomicEffect, MaxLocks, GiveUp
 
 VARIABLES now, entry, pc, tok, bel, nextTok
 vars == <<now, entry, pc, tok, bel, nextTok>>
@@ -35,6 +40,12 @@ TryLock(c, tau) ==
   /\ entry' = [tok |-> nextTok, exp |-> IF tau = 0 THEN 0 ELSE now + tau]
   /\ tok' = [tok EXCEPT ![c] = nextTok] /\ bel' = [bel EXCEPT ![c] = IF tau = 0 THEN 0 ELSE now + tau]
   /\ nextTok' = nextTok + 1 /\ UNCHANGED <<now, pc>>
+
+\* an attempt whose client has stopped listening acquires the lock: the reply goes nowhere
+OrphanLock(tau) ==
+  /\ GiveUp /\ nextTok <= MaxLocks /\ ~Live(entry)
+  /\ entry' = [tok |-> nextTok, exp |-> IF tau = 0 THEN 0 ELSE now + tau]
+  /\ nextTok' = nextTok + 1 /\ UNCHANGED <<now, pc, tok, bel>>
 
 \* first step of Unlock and Lease: read and compare
 Check(c, what) ==
@@ -62,6 +73,7 @@ LeaseEffect(c, tau) ==
   /\ pc' = [pc EXCEPT ![c] = "idle"] /\ UNCHANGED <<now, nextTok>>
 
 Next == \/ Tick
+        \/ \E tau \in Timeouts : OrphanLock(tau)
         \/ \E c \in Clients : \/ \E tau \in Timeouts : TryLock(c, tau)
                               \/ Check(c, "unlock") \/ Check(c, "lease")
                               \/ UnlockEffect(c)
@@ -72,6 +84,8 @@ Valid(c) == tok[c] # 0 /\ (bel[c] = 0 \/ now < bel[c])
 MutualExclusion == \A c, d \in Clients : (c # d /\ Valid(c)) => ~Valid(d)
 \* whoever validly holds the lock is the one the stored entry names
 HolderIsStored == \A c \in Clients : Valid(c) => (Live(entry) /\ entry.tok = tok[c])
+\* a lock without a timeout is released by its holder only: somebody must know its token
+LockHasOwner == (Live(entry) /\ entry.exp = 0) => \E c \in Clients : tok[c] = entry.tok
 \* an Unlock or Lease that presents a token which is not the current one changes nothing
 TokenSafety == [][\A c \in Clients : (pc[c] \in {"unlock", "lease"} /\ pc'[c] = "idle" /\ ~StillMine(c)) => entry' = entry]_vars
 =============================================================================
